@@ -6,8 +6,8 @@ Import ListNotations.
 Local Open Scope Z_scope.
 
 Definition flen (f : list Z) : Z := Z.of_nat (length f).
-(* the environment of the theorems about the code as it is now: at least the applied fixes, fuel larger than the
-   file length, cap above the bound; [fixed_env] adds the proposed fixes/C09_5 *)
+(* [now_env]: at least the fixes C09_1 .. C09_4, fuel larger than the file length, cap above the bound; [fixed_env] adds
+   fixes/C09_5 (fix_rank) and is the code as it is now *)
 Definition now_env (E : env) (f : list Z) (bound : Z) : Prop :=
   cfg_ge_now (e_cfg E) /\ (length f < e_fuel E)%nat /\ bound <= e_cap E.
 Definition fixed_env (E : env) (f : list Z) (bound : Z) : Prop :=
@@ -69,7 +69,7 @@ Lemma flen_nonneg : 0 <= flen f. Proof. unfold flen. lia. Qed.
 Lemma fuel_of : forall b, now_env E f b -> flen f < Z.of_nat (e_fuel E).
 Proof. intros b [_ [H _]]. unfold flen. lia. Qed.
 
-(* the code as it is now *)
+(* the readers that do not depend on fix_rank *)
 Theorem load_Table_now : now_env E f (alloc_bound (flen f)) -> good_outcome wf_table (alloc_bound (flen f)) (load_Table E f).
 Proof.
   intros HE. pose proof flen_nonneg. pose proof (fuel_of _ HE). destruct HE as [H1 [H2 H3]].
